@@ -258,6 +258,43 @@ def _catalogue():
                  {"max_iter": 25, "variant": R.choice(["rayleigh", "implicit", "aed", "none"])}))
     F("decomp.schur.quaternion_schur_experimental",
       lambda R: ([G(*(lambda n: (n, n))(R.randint(1, 4)), R.randrange(10 ** 6))], {"max_iter": 20}))
+    # helpers of the decompositions
+    def hv(R):
+        n = R.randint(1, 4)
+        return [G(n, 1, R.randrange(10 ** 6)), {"gen": "real", "m": n, "n": 1, "seed": R.randrange(10 ** 6)}], {}
+    F("decomp.tridiagonalize.householder_vector", hv)
+    F("decomp.tridiagonalize.householder_matrix", hv)
+    F("decomp.tridiagonalize.internal_tridiagonalizer", lambda R: ([_herm(R, 2, 4)], {}))
+    F("decomp.tridiagonalize.check_tridiagonal", lambda R: ([_herm(R, 2, 4)], {}))
+    F("utils.quat_abs_scalar", lambda R: ([{"gen": "qscalar", "q": [R.uniform(-2, 2) for _ in range(4)]}], {}))
+    # image / restoration helpers (qslst)
+    def img(R, c=4):
+        return {"gen": "realnd", "shape": [R.randint(1, 4), R.randint(1, 4), c], "seed": R.randrange(10 ** 6)}
+    F("qslst.rgb_to_quat", lambda R: ([img(R, 3)], {"real_part": R.choice([0.0, 0.5])}))
+    F("qslst.quat_to_rgb", lambda R: ([img(R, 4)], {"clip": R.random() < 0.5}))
+    F("qslst.split_quat_channels", lambda R: ([img(R, 4)], {}))
+    F("qslst.build_psf_gaussian", lambda R: ([R.randint(0, 2), R.choice([0.5, 1.0])], {}))
+    F("qslst.build_psf_motion", lambda R: ([R.randint(1, 4), R.choice([0.0, 30.0, 90.0])], {}))
+
+    def blur(R):
+        h, w = R.randint(3, 5), R.randint(3, 5)
+        return [{"gen": "realnd", "shape": [h, w, 4], "seed": R.randrange(10 ** 6)},
+                {"gen": "real", "m": R.choice([1, 3]), "n": R.choice([1, 3]), "seed": R.randrange(10 ** 6)}], {}
+    F("qslst.apply_blur_fft", blur)
+    F("qslst.qslst_restore_fft", lambda R: (blur(R)[0] + [R.choice([0.01, 0.1, 1.0])], {}))
+
+    def rm(R):
+        h, w = R.randint(1, 3), R.randint(1, 3)
+        return [{"gen": "realnd", "shape": [h, w, 4], "seed": R.randrange(10 ** 6)},
+                {"gen": "real", "m": h * w, "n": h * w, "seed": R.randrange(10 ** 6)}, R.choice([0.0, 0.1])], {}
+    F("qslst.qslst_restore_matrix", rm)
+
+    def two(R):
+        shp = [R.randint(1, 3), R.randint(1, 3), 4]
+        return [{"gen": "realnd", "shape": shp, "seed": R.randrange(10 ** 6)},
+                {"gen": "realnd", "shape": shp, "seed": R.randrange(10 ** 6)}], {}
+    F("qslst.psnr", two)
+    F("qslst.relative_error", two)
     # data generation
     F("data_gen.create_test_matrix",
       lambda R: ([R.randint(1, 5), R.randint(1, 5)], R.choice([{}, {"rank": 1}, {"cond_number": 10.0}])), 2)
